@@ -41,6 +41,7 @@ class Run:
         self.gen_cases = 0
         self.tlc_runs = []
         self.note_counts = {}
+        self.cover = {}
         self.driver = None
         self.rng = random.Random(seed)
 
@@ -190,6 +191,8 @@ class Run:
                 events += summ["lines"]
                 for pk, cnt in summ["counts"].items():
                     self.note_counts[pk] = self.note_counts.get(pk, 0) + cnt
+                for pk, cnt in summ.get("cover", {}).items():
+                    self.cover[pk] = self.cover.get(pk, 0) + cnt
         log("validated %d events in %.1fs, %d notes" % (events, time.time() - t0, len(notes)))
         return notes, events
 
@@ -249,7 +252,7 @@ def matches(sig, finding):
     return True
 
 
-def finish(run, prop, claims, notes, progs_by_id, coverage, level, assumptions, samples):
+def finish(run, prop, claims, notes, progs_by_id, coverage, level, assumptions, samples, require=None):
     """Classifies notes, prints the verdict lines, writes evidence and replays; returns the exit code."""
     if os.environ.get("VERIF_DUMP_NOTES"):
         with open(os.environ["VERIF_DUMP_NOTES"], "w") as f:
@@ -285,6 +288,11 @@ def finish(run, prop, claims, notes, progs_by_id, coverage, level, assumptions, 
         print("VIOLATION property=%s replay=%s" % (prop, path))
         print("  %s: %s %s" % (n.get("prog"), n["why"], json.dumps(n.get("extra"))[:300]))
         rc = 1
+    vacuous = [(k, need, run.cover.get(k, 0)) for k, need in (require or {}).items() if run.cover.get(k, 0) < need]
+    if vacuous and rc == 0:
+        for k, need, got in vacuous:
+            log("VACUOUS: %s exercised %d times, at least %d wanted" % (k, got, need))
+        rc = 2
     if infra:
         for n in infra[:5]:
             log("infrastructure note:", json.dumps(n)[:400])
@@ -295,6 +303,7 @@ def finish(run, prop, claims, notes, progs_by_id, coverage, level, assumptions, 
     cov.setdefault("transitions", run.tlc_transitions)
     cov["samples"] = samples[:6]
     cov["tlc_runs"] = len(run.tlc_runs)
+    cov["exercised"] = {k: c for k, c in sorted(run.cover.items()) if k != "none"}
     cov["violating_notes"] = len(violations)
     cov["notes_by_property_all_checked_invariants"] = {k: c for k, c in run.note_counts.items() if k != "none"}
     cov["known_finding_notes"] = sum(c for _, c in knowns.values())
